@@ -46,3 +46,33 @@ package protocol
 //@     invariant[value] n == dec(arr(b), off(b), i)
 //@     invariant[err] err == nil
 //@     decreases len(b) - i
+
+//@ func NewClientErr(parent error, code string, description string) *ClientErr
+//@   props C09 C15 C02
+//@   ensures result != nil && result.Code == code && result.Desc == description && result.ParentErr == parent
+//@   modifies
+
+//@ func NewFatalClientErr(parent error, code string, description string) *FatalClientErr
+//@   props C09 C15
+//@   ensures result != nil && result.Code == code && result.Desc == description && result.ParentErr == parent
+//@   modifies
+
+// Names: 1..64 characters matching the pinned pattern. The regular expression itself is an
+// uninterpreted predicate of the string (regexp is trusted).
+//@ fn nameRegexMatch(s string) bool
+//@ pred validName(s string) := 1 <= len(s) && len(s) <= 64 && nameRegexMatch(s)
+//@ extern (*regexp.Regexp).MatchString(re, s) (ok)
+//@   ensures re == validTopicChannelNameRegex ==> ok == nameRegexMatch(s)
+
+//@ func isValidName(name string) bool
+//@   props C09 C10 C15
+//@   ensures result == validName(name)
+//@   modifies
+//@ func IsValidTopicName(name string) bool
+//@   props C09 C10 C15
+//@   ensures result == validName(name)
+//@   modifies
+//@ func IsValidChannelName(name string) bool
+//@   props C09 C10 C15
+//@   ensures result == validName(name)
+//@   modifies
